@@ -571,16 +571,16 @@ package statsd
 
 // ---- forwarder events (C14/C19): the message posted upstream carries the event's fields ------------------------
 //@ func (*HttpForwarderHandlerV2).DispatchEvent
-//@   requires hfh != nil && e != nil
+//@   requires hfh != nil && e != nil && hfh.logger != nil
 //@   callsite dispatchEvent requires arg1 == e
 //@   ensures  calls(eventWg.Add) == 1 && calls(go1) == 1
 //@   modifies everything
 //@ func (*HttpForwarderHandlerV2).dispatchEvent
-//@   requires hfh != nil && e != nil
+//@   requires hfh != nil && e != nil && hfh.logger != nil
 //@   callsite post requires local(message).Title == e.Title && local(message).Text == e.Text && local(message).DateHappened == e.DateHappened && local(message).Hostname == e.Source && local(message).AggregationKey == e.AggregationKey && local(message).SourceTypeName == e.SourceTypeName && local(message).Tags == e.Tags
 //@   callsite post requires (e.Priority == gostatsd.PriLow) == (local(message).Priority == pb.EventV2_Low) && (e.Priority == gostatsd.PriNormal ==> local(message).Priority == pb.EventV2_Normal)
 //@   callsite post requires (e.AlertType == gostatsd.AlertInfo ==> local(message).Type == pb.EventV2_Info) && (e.AlertType == gostatsd.AlertWarning ==> local(message).Type == pb.EventV2_Warning) && (e.AlertType == gostatsd.AlertError ==> local(message).Type == pb.EventV2_Error) && (e.AlertType == gostatsd.AlertSuccess ==> local(message).Type == pb.EventV2_Success)
-//@   ensures  calls(post) == 1 && calls(eventWg.Done) == 1
+//@   ensures  calls(hfh.post) == 1 && calls(eventWg.Done) == 1
 //@   modifies everything
 // post (C15): one request body is attempted again only after a failed attempt and never after a success; it ends in
 // exactly one of: sent (counted once), given up when the retry window is exhausted (counted once as dropped),
